@@ -181,7 +181,7 @@ def stage_build_impl(log):
     return rc == 0, out
 
 
-def run_engine(eng, pid, tier, seed, budget, work, tag, replay=None, timeout=None):
+def run_engine(eng, pid, tier, seed, budget, work, tag, replay=None, timeout=None, want_ref=False):
     ops = os.path.join(work, "%s.ops" % tag)
     impl = os.path.join(work, "%s.impl" % tag)
     stats = os.path.join(work, "%s.stats.json" % tag)
@@ -208,12 +208,96 @@ def run_engine(eng, pid, tier, seed, budget, work, tag, replay=None, timeout=Non
     if not os.path.exists(ops):
         res["crashed"] = res["crashed"] or "no ops file"
         return res
+    menv = dict(os.environ)
+    if want_ref:
+        menv["NEOFS_MODEL_REF"] = "1"
     with open(ops) as fi, open(model, "w") as fo:
-        p = subprocess.run([MODEL], stdin=fi, stdout=fo, stderr=subprocess.PIPE, text=True)
+        p = subprocess.run([MODEL], stdin=fi, stdout=fo, stderr=subprocess.PIPE, text=True, env=menv)
         if p.returncode != 0:
             res["crashed"] = (res["crashed"] or "") + " model driver exit %d: %s" % (p.returncode, p.stderr[-500:])
+    res["ref_lines"] = split_ref(model) if want_ref else None
+    res["spec_failures"] = split_spec(ops, model)
     res["diff"] = first_diff(ops, impl, model)
     return res
+
+
+def split_ref(model):
+    """Strip the ' ## REF k=v ...' part (reference views) from the model stream; returns it per line."""
+    with open(model) as f:
+        lines = f.read().split("\n")
+    refs = []
+    for i, l in enumerate(lines):
+        if " ## REF " in l:
+            lines[i], r = l.split(" ## REF ", 1)
+            refs.append(dict(t.split("=", 1) for t in r.split(" ") if "=" in t))
+        else:
+            refs.append(None)
+    with open(model, "w") as f:
+        f.write("\n".join(lines))
+    return refs
+
+
+def norm_field(k, v):
+    """Canonical form of a view field for comparing an implementation view with the reference view."""
+    if k == "list":
+        return ",".join(x for x in v.split(",") if x not in ("|", "-", ""))
+    if k == "exp":
+        return ",".join(sorted((x.split(":")[0] for x in v.split(",") if x not in ("-", "")),
+                               key=lambda a: tuple(int(y) for y in a.split("/"))))
+    if k == "ctr":
+        return ",".join(v.split(",")[:5])
+    return v
+
+
+def impl_vs_reference(eng, pid, seq, work):
+    """Replay seq; compare the implementation's last observation with the reference views of the model state.
+    Returns a description of the first disagreeing field, or None."""
+    rp = os.path.join(work, "ref.replay.ops")
+    with open(rp, "w") as f:
+        f.write("reset\n" + "\n".join(seq) + "\n")
+    r = run_engine(eng, pid, "quick", 0, 1, work, "ref", replay=rp, timeout=300, want_ref=True)
+    refs = r.get("ref_lines") or []
+    with open(r["impl"]) as f:
+        impl = f.read().split("\n")
+    for i in range(len(refs) - 1, -1, -1):
+        if refs[i] and i < len(impl):
+            obs = dict(t.split("=", 1) for t in impl[i].split(" ") if "=" in t)
+            for k, want in refs[i].items():
+                if k in obs and norm_field(k, obs[k]) != norm_field(k, want):
+                    return "field %s: implementation reports %s, the reference rules give %s" % (k, obs[k][:200], want[:200])
+            return None
+    return None
+
+
+def split_spec(ops, model):
+    """The model driver appends ' ## FAIL a(b) c(d)' when a view of the model disagrees with the declarative
+    reference (Spec/*.lean). Strip it (the implementation stream has no such part) and return the failures as
+    oracle-style records with the op sequence that leads to them."""
+    with open(model) as f:
+        lines = f.read().split("\n")
+    if not any(" ## FAIL " in l for l in lines):
+        return []
+    with open(ops) as f:
+        o = f.read().split("\n")
+    out, sigs = [], {}
+    start = 0
+    for i, l in enumerate(lines):
+        if i < len(o) and o[i] == "reset":
+            start = i
+        if " ## FAIL " not in l:
+            continue
+        left, right = l.split(" ## FAIL ", 1)
+        lines[i] = left
+        for tok in right.split(" "):
+            name = tok.split("(")[0].split("@")[0]
+            cause = "cause=" in tok
+            key = (name, cause)
+            sigs[key] = sigs.get(key, 0) + 1
+            if sigs[key] <= 4:
+                out.append({"assertion": name, "detail": tok, "ops": [x for x in o[start + 1:i + 1] if x and x != "reset"]})
+    with open(model, "w") as f:
+        f.write("\n".join(lines))
+    return out
 
 
 def first_diff(ops, impl, model):
@@ -419,13 +503,36 @@ def check(pid, cfg, tier, seed):
                                    "detail": "the harness no longer builds against /repo with -tags verif: " + build_out[-800:]})
             else:
                 escalate = not proof_ok
+                runs = []
                 for e in cfg["engines"]:
+                    cdir = os.path.join(ROOT, "corpus", e["name"])
+                    for cf in sorted(os.listdir(cdir)) if os.path.isdir(cdir) else []:
+                        if cf.endswith(".ops"):  # minimised past failures and hand-written boundary cases run first
+                            runs.append((e, os.path.join(cdir, cf), "corpus-" + cf[:-4]))
+                    runs.append((e, None, e["name"]))
+                for e, corpus_file, tag in runs:
                     budget = e.get(tier, 1) * (e.get("search_factor", 4) if escalate else 1)
-                    r = run_engine(e["name"], pid, tier, seed, budget, work, e["name"])
+                    r = run_engine(e["name"], pid, tier, seed, budget, work, tag, replay=corpus_file)
                     results.append(r)
                     if r["crashed"]:
                         violations.append({"kind": "crash", "assertion": "harness-run", "engine": e["name"], "ops": [],
                                            "detail": r["crashed"]})
+                    def spec_pred(c, _a, _e=e["name"]):
+                        rr = replay_seq(_e, pid, c, work, "shr")[2]
+                        return any(x["assertion"] == _a and "cause=" not in x["detail"] for x in rr.get("spec_failures") or [])
+                    for fl in r.get("spec_failures") or []:
+                        if cfg.get("spec_assertions") is not None and not any(fl["assertion"].startswith(a) for a in cfg["spec_assertions"]):
+                            continue  # belongs to another property served by the same engine
+                        k = match_finding(findings, pid, fl["assertion"], fl["detail"])
+                        if k:
+                            known_hits.setdefault(k["id"], k)
+                            continue
+                        small = ddmin(fl["ops"], lambda c, _a=fl["assertion"]: spec_pred(c, _a))
+                        rr = replay_seq(e["name"], pid, small, work, "shr")[2]
+                        det = next((x["detail"] for x in rr.get("spec_failures") or [] if x["assertion"] == fl["assertion"]), fl["detail"])
+                        violations.append({"kind": "oracle", "assertion": fl["assertion"], "engine": e["name"], "ops": small,
+                                           "detail": "the model's view (which the implementation reproduces on this sequence) "
+                                                     "disagrees with the reference rules: " + det})
                     for fl in (r["stats"] or {}).get("failures") or []:
                         seq = fl["ops"]
                         k = match_finding(findings, pid, fl["assertion"], fl["detail"])
@@ -455,6 +562,9 @@ def check(pid, cfg, tier, seed):
                             else:
                                 violations.append({"kind": "oracle", "assertion": fl["assertion"], "engine": e["name"],
                                                    "ops": small, "detail": fl["detail"]})
+                        elif (refdiff := impl_vs_reference(e["name"], pid, small, work)):
+                            violations.append({"kind": "oracle", "assertion": "implementation-view-follows-reference-rules",
+                                               "engine": e["name"], "ops": small, "detail": refdiff})
                         else:
                             violations.append({"kind": "correspondence", "assertion": "model-equals-implementation",
                                                "engine": e["name"], "ops": small, "no_input": True,
